@@ -11,7 +11,7 @@ COQ_DIR = "C04"
 EXTRA_COQ_DIRS = ["LLP"]
 RUN_MOD = "C04.Run"
 MODEL_TARGETS = ["C04/Run.vo"]
-PROOF_TARGETS = ["C04/LemmasText.vo", "C04/LemmasLex.vo", "C04/LemmasCover.vo", "C04/LemmasTree.vo", "C04/LemmasConc.vo", "C04/LemmasNode.vo"]
+PROOF_TARGETS = ["C04/LemmasText.vo", "C04/LemmasLex.vo", "C04/LemmasCover.vo", "C04/LemmasTree.vo", "C04/LemmasConc.vo", "C04/LemmasNode.vo", "C04/LemmasOps.vo"]
 PROPS = ["C04/Props.v"]
 ALLOWED_AXIOMS = []
 IMPL_TIMEOUT = 10.0
@@ -28,7 +28,16 @@ RULE = ("texts rendered from the harness lexicon (words, numbers, quoted strings
         "tokenizer configurations (pattern order, synonyms incl. the span symbol, keywords, skip sets: default, empty, "
         "explicit, unusual); seven grammars (flat list of any token; nullable children at the start, in the middle and "
         "at the end of a production; an inner node whose children are all empty; common prefixes whose remainder is "
-        "nullable, both smart_factorization values; nesting) fed with sampled sentences and with broken ones.  "
+        "nullable, both smart_factorization values; nesting) and three template grammars (nested ListProds with brackets and "
+        "delimiter whose items end in an optional part; nested MapProds whose keys are inner nodes; ProdSequence of tokens and "
+        "inner nodes) fed with sampled sentences and with broken ones.  Every case is ONE history on ONE parser object: "
+        "optionally another text first (before, or in the middle of the token generator of the observed text: a suspended "
+        "tokenizer generator plus a complete parse of a text that ends in a LexicalError / an unclosed span / a ParsingError / "
+        "many lines), tokenize(text), parse(text, do_cleanup=False), and - when a tree is returned - the public tree API on it: "
+        "find_all, get_orig_text with the text as str / list / tuple, clone() of the tree and of every sub-tree, a second parse + "
+        "cleanup() in place (surviving objects identified), cleanup() of the clone, the first tree again, parse(text) with the "
+        "default cleanup and random keep_symbols, clone() of the cleaned tree, parse(tuple(lines)); fixed tree probes with "
+        "blanks / line breaks / comments between an element's last token and the next token for every grammar.  "
         "Non-trivial = distinct case with at least two lines or a span token or a foreign character, and at least three tokens.")
 TRUSTED_BASE = [
     "re (CPython 3.12): pattern.match(line, col) returns the first alternative that matches at col, end() lies in (col, len(line)] "
@@ -41,6 +50,15 @@ TRUSTED_BASE = [
     "(line_start_reset, on which the model's line_start and the soundness lemmas depend) are read from ak/llparser.py by "
     "harness/props/c04.py:gen_consts (ast, fail closed)",
     "the suffix symbols of the factorised grammar are never terminals (hypothesis of parse_spans; the constructor reserves names with '__')",
+    "template grammars: the productions ListProds / MapProds / ProdSequence generate are written out by the harness (grammars_for: "
+    "'prods' next to 'tprods'; gen_productions itself is C05's subject) and fed to the model through C04/Run.v build_t (the "
+    "constructor pipeline of LLP/Build.v with the '__' name assertion restricted to the user's own symbols, as in "
+    "_create_productions); a wrong expansion shows as a disagreement of the raw trees on the unchanged tree",
+    "which objects survive the cleanup (and under which name / in which container) is taken from the implementation: the harness "
+    "identifies every TElement of the cleaned tree with an element of the raw tree by object identity (the raw elements are kept "
+    "alive) and passes the depth-first indices to the model (surviving); the model answers with the spans and texts those raw "
+    "elements have.  An element that is not an object of the raw tree is checked by the oracle only (its span must be a span of "
+    "the raw tree and its text the slice)",
     "LLP/Build.v (constructor pipeline: factorization, tables, recursion check) is used unverified to obtain the parse table of the "
     "correspondence cases; the node-span theorems hold for ANY table (they are about LLP/Parse.v step/mk_node)",
 ]
@@ -50,11 +68,15 @@ ASSUMPTIONS = [
     "every span body pattern has a named group (match.group(match.lastgroup) is otherwise an IndexError)",
     "text given as list: the same list is handed to get_orig_text; for a str the tokenizer sees the rstrip()ped lines while "
     "get_orig_text slices the unstripped ones (modelled; the theorems are stated for any pair of line lists related by 'is a prefix of')",
-    "trees before cleanup (parse(do_cleanup=False)); plain productions (templates are C05's subject)",
+    "the VALUES of the cleaned tree (which elements are squashed, list / dict contents) are C05's subject: here every TElement "
+    "reachable in the cleaned tree (list items, dict keys and values included) is examined for its span and text only",
+    "ListProds without brackets or delimiter, optional templates and AnyTokenExcept are not among the generated grammars",
 ]
 MODELLED = ("ak/llparser.py: _Tokenizer.tokenize 240-334 (line splitting, rstrip, the per-line loop, span tokens, synonyms, keywords, "
             "LexicalError positions, $END$), the skip_tokens filter of LLParser.parse 1649-1652, TElement.get_orig_text 460-517, node "
-            "positions 1686-1709 and 1752-1756 (LLP/Parse.v mk_node / step)")
+            "positions 1686-1709 and 1752-1756 (LLP/Parse.v mk_node / step), TElement.clone 519-540 (Model.v clone), "
+            "LLParser._process_seq_telement 1987-2014 (flatten_seq), find_all / iter_all 645-741 (preorder), the in-place nature of "
+            "StdCleanuper._cleanup 2506-2585 and ListProds / MapProds.transform_t_elem (surviving)")
 
 
 class ExtractError(Exception):
@@ -294,6 +316,37 @@ def grammars_for(cfg):
         w, n, m = nm["word"], nm["num"], nm["mlc"]
         # span tokens as first / last token of inner nodes
         out["span"] = {"prods": [["E", [["C", "E"], []]], ["C", [["OM", w, "OM"], [n, m]]], ["OM", [[m], []]]], "start": "E"}
+    if have("word", "num", "plus", "semi", "lp", "rp"):
+        w, n, p, s, lp, rp = nm["word"], nm["num"], nm["plus"], nm["semi"], nm["lp"], nm["rp"]
+        # production templates.  "tprods" is what the constructor gets, "prods" the same grammar with the
+        # productions of the templates written out in place (what _create_productions yields; used by the
+        # model and by the sentence sampler), "gen" the generated symbols, "seqs" the ProdSequence symbols.
+        # ListProds with brackets and delimiter, nested; an item's last child may be empty
+        out["tlist"] = {
+            "prods": [["E", [["LST", "TAILOPT"]]],
+                      ["LST", [[lp, rp], [lp, "ITEM", "LST__TAIL", rp]]],
+                      ["LST__TAIL", [[s, "ITEM", "LST__TAIL"], [s], []]],
+                      ["ITEM", [[w, "OPT"], ["LST"]]], ["OPT", [[n], []]], ["TAILOPT", [[p], []]]],
+            "tprods": [["E", [["LST", "TAILOPT"]]], ["LST", {"list": [lp, "ITEM", s, rp]}],
+                       ["ITEM", [[w, "OPT"], ["LST"]]], ["OPT", [[n], []]], ["TAILOPT", [[p], []]]],
+            "gen": ["LST", "LST__TAIL"], "seqs": [], "start": "E"}
+        # MapProds whose keys are inner nodes (they stay TElement objects, used as dict keys), nested
+        out["tmap"] = {
+            "prods": [["E", [["M", "OPT"]]],
+                      ["M", [[lp, rp], [lp, "M__KV_PAIR", "M__ELEMENTS", rp]]],
+                      ["M__ELEMENTS", [[s, "M__KV_PAIR", "M__ELEMENTS"], [s], []]],
+                      ["M__KV_PAIR", [["KEY", p, "VAL"]]],
+                      ["KEY", [[w, "OPT"]]], ["VAL", [[w, "OPT"], ["M"]]], ["OPT", [[n], []]]],
+            "tprods": [["E", [["M", "OPT"]]], ["M", {"map": [lp, "KEY", p, "VAL", s, rp]}],
+                       ["KEY", [[w, "OPT"]]], ["VAL", [[w, "OPT"], ["M"]]], ["OPT", [[n], []]]],
+            "gen": ["M", "M__ELEMENTS", "M__KV_PAIR"], "seqs": [], "start": "E"}
+        # ProdSequence of tokens and inner nodes (flattened while parsing), followed by an optional part
+        out["tseq"] = {
+            "prods": [["E", [["S", "TAILOPT"]]], ["S", [["S__ELEMENT", "S"], []]], ["S__ELEMENT", [[w], ["PAIR"]]],
+                      ["PAIR", [[lp, "OPT", rp]]], ["OPT", [[n], []]], ["TAILOPT", [[p], []]]],
+            "tprods": [["E", [["S", "TAILOPT"]]], ["S", {"seq": [w, "PAIR"]}],
+                       ["PAIR", [[lp, "OPT", rp]]], ["OPT", [[n], []]], ["TAILOPT", [[p], []]]],
+            "gen": ["S", "S__ELEMENT"], "seqs": ["S"], "start": "E"}
     return out
 
 
@@ -402,7 +455,7 @@ def sentence_kinds(rng, cfg, g):
     return kinds
 
 
-def mk_case(cid, gid, text, as_list, smart=True, keepends=False, note=""):
+def mk_case(cid, gid, text, as_list, smart=True, keepends=False, note="", keep=None, prev=None):
     cfg = CONFIGS[cid]
     g = grammars_for(cfg)[gid]
     if as_list:
@@ -414,7 +467,20 @@ def mk_case(cid, gid, text, as_list, smart=True, keepends=False, note=""):
         t = text
     return {"cfg": cid, "lex": cfg["lex"], "spans": cfg["spans"], "syn": cfg["syn"], "kw": cfg["kw"], "skip": cfg["skip"],
             "gid": gid, "prods": g["prods"], "start": g["start"], "smart": bool(smart),
+            "tprods": g.get("tprods"), "gen": g.get("gen", []), "seqs": g.get("seqs", []),
+            "keep": keep, "prev": prev,
             "text": t, "note": note}
+
+
+# texts a parser object is used on BEFORE (or in the middle of) the observed text: the positions of the
+# observed text must not depend on them (a LexicalError in the middle of a line / inside a span, an unclosed
+# span, many lines, a ParsingError)
+def prev_texts(cfg):
+    o = cfg["open"]
+    out = ["a b\nc d\n\n e 1 2\n f", "x\n\n\n  @", "1 2 3 ; ;\n( ( (\n", ["p", "q r", "", "s"], "\n\n\n\n\nzz 9"]
+    if o:
+        out += [f"a\nb {o} never closed\n\nc", f"{o} x\n y {cfg['close']} z\n@"]
+    return out
 
 
 def gen_cases(rng, tier, n=None):
@@ -435,6 +501,31 @@ def gen_cases(rng, tier, n=None):
         for p in probes:
             for as_list in (False, True):
                 cases.append(mk_case(cid, "flat", p, as_list, note="probe"))
+    # fixed probes of the tree operations (clone, cleanup, find_all) on every grammar family: skipped text
+    # (blanks, line breaks, comments) between an element's last token and the next token
+    TREE_PROBES = {
+        "tail": ["ab   12", "ab\n\n  12", "ab cd   12"],
+        "sme": ["ab  12  ;  cd 3", "+ a b 1\n\n  c  2 ;"],
+        "allempty": ["  12  ", "a  ;\n 12   +"],
+        "prefix": ["a 1   b  ;  2", "; \n 3 a"],
+        "tlist": ["( a  ; b 1 ;\n c  )  +", "(  )", "( ( a  ) ; ( b 2  ; ) ;  )\n"],
+        "tmap": ["( a  + x  ; b 2 + ( c + d  ) ;  )  7", "( )\n\n"],
+        "tseq": ["a ( ) b (  3 )   +", " a  \n  ", "(  )  \n  ( 1 )  "],
+    }
+    for cid in cids:
+        cfg = CONFIGS[cid]
+        gs = grammars_for(cfg)
+        for gid, texts in sorted(TREE_PROBES.items()):
+            if gid not in gs:
+                continue
+            nts = [nt for nt, _ in (gs[gid].get("tprods") or gs[gid]["prods"])]
+            for i, t in enumerate(texts):
+                if cfg["eol"] and i == 0:
+                    t = t.replace("  ", f" {cfg['eol']} c\n ", 1)
+                for as_list in (False, True):
+                    cases.append(mk_case(cid, gid, t, as_list, smart=(i % 2 == 0), note="tree-probe",
+                                         keep=(nts if i == 1 else None),
+                                         prev=({"text": prev_texts(cfg)[i], "mode": "interleave", "k": 2} if as_list else None)))
     while len(cases) < n:
         cid = rng.choice(cids)
         cfg = CONFIGS[cid]
@@ -470,7 +561,16 @@ def gen_cases(rng, tier, n=None):
             note += "+unclosed"
         as_list = rng.random() < 0.45
         keepends = as_list and rng.random() < 0.2
-        cases.append(mk_case(cid, gid, text, as_list, smart=rng.random() < 0.6, keepends=keepends, note=note))
+        keep = None
+        if rng.random() < 0.4:
+            nts = [nt for nt, _ in (gs[gid].get("tprods") or gs[gid]["prods"])]
+            keep = sorted(nt for nt in nts if rng.random() < 0.5)
+        prev = None
+        if rng.random() < 0.4:
+            prev = {"text": rng.choice(prev_texts(cfg)), "mode": rng.choice(["before", "interleave"]), "k": rng.randint(0, 4)}
+            note += "+prev"
+        cases.append(mk_case(cid, gid, text, as_list, smart=rng.random() < 0.6, keepends=keepends, note=note,
+                             keep=keep, prev=prev))
     return cases
 
 
@@ -485,14 +585,23 @@ def kind(case):
 
 
 # ------------------------------------------------------------------ implementation
-def _tree_obs(t, text):
+def _orig_obs(t, text):
     try:
-        orig = ["ok", t.get_orig_text(text)]
+        return ["ok", t.get_orig_text(text)]
     except BaseException as e:  # noqa
         if type(e).__name__ == "Hang":
             raise
-        orig = ["err", SX.exc_name(e)]
-    sp = [list(t.span[0]), list(t.span[1])]
+        return ["err", SX.exc_name(e)]
+
+
+def _span_obs(t):
+    sp = t.span
+    return [list(sp[0]), list(sp[1])]
+
+
+def _tree_obs(t, text):
+    orig = _orig_obs(t, text)
+    sp = _span_obs(t)
     v = t.value
     if v is None:
         return [1, t.name, [], sp, orig]
@@ -501,16 +610,166 @@ def _tree_obs(t, text):
     return [1, t.name, [_tree_obs(c, text) for c in v], sp, orig]
 
 
+def _preorder(t):
+    """the elements of a raw tree, an element before its children (own recursion, not find_all)"""
+    out = [t]
+    if isinstance(t.value, list):
+        for c in t.value:
+            out += _preorder(c)
+    return out
+
+
+def _clean_obs(x, text, idx, TE, seen):
+    """a cleaned tree: ["T", name, is_leaf, span, orig, index of the object in the raw tree or None, value] for an
+    element; a value is ["N"] | ["S", str] | ["L", items] | ["D", [[key, value]]] | ["?", type]"""
+    if isinstance(x, TE):
+        seen.append(x)
+        return ["T", x.name, bool(x.is_leaf()), _span_obs(x), _orig_obs(x, text), idx.get(id(x)),
+                _clean_obs_val(x.value, text, idx, TE, seen)]
+    return _clean_obs_val(x, text, idx, TE, seen)
+
+
+def _clean_obs_val(v, text, idx, TE, seen):
+    if v is None:
+        return ["N"]
+    if isinstance(v, str):
+        return ["S", v]
+    if isinstance(v, list):
+        return ["L", [_clean_obs(i, text, idx, TE, seen) for i in v]]
+    if isinstance(v, dict):
+        return ["D", [[_clean_obs(k, text, idx, TE, seen), _clean_obs(w, text, idx, TE, seen)] for k, w in v.items()]]
+    if isinstance(v, TE):
+        return _clean_obs(v, text, idx, TE, seen)
+    return ["?", type(v).__name__]
+
+
+def _strip_idx(o):
+    if isinstance(o, list) and o and o[0] == "T":
+        return o[:5] + [None, _strip_idx(o[6])]
+    if isinstance(o, list):
+        return [_strip_idx(e) for e in o]
+    return o
+
+
+def alt_texts(text):
+    """other representations of the same text (get_orig_text must not care): -> [(tag, text)]"""
+    if isinstance(text, str):
+        return [("list", text.split("\n")), ("tuple", tuple(text.split("\n")))]
+    out = [("tuple", tuple(text))]
+    if text and not any("\n" in l for l in text):
+        out.append(("str", "\n".join(text)))
+    return out
+
+
+def _flat(nodes, text):
+    return [[n.name, _span_obs(n), _orig_obs(n, text)] for n in nodes]
+
+
+def _tree_ops(llparser, p, raw, text):
+    """what the public tree API gives for the freshly parsed tree `raw` (one parser object, one history)"""
+    TE = llparser.TElement
+    o = {}
+    raw0 = _tree_obs(raw, text)
+    own = _preorder(raw)
+    # find_all lists the same objects
+    found = raw.find_all(exclude_root=False)
+    same = len(found) == len(own) and all(a is b for a, b in zip(found, own))
+    o["find_raw"] = None if same else [_flat(found, text), _flat(own, text)]
+    # get_orig_text with the same text in another representation
+    o["alt"] = [[_orig_obs(n, alt) for n in own] for _, alt in alt_texts(text)]
+    # the same lines handed to parse() as another kind of iterable
+    o["tuple_parse"] = None
+    if isinstance(text, list):
+        rt = _tree_obs(p.parse(tuple(text), do_cleanup=False), text)
+        o["tuple_parse"] = None if rt == raw0 else rt
+    # clone of the whole tree, clones of every sub-tree
+    c = raw.clone()
+    o["clone"] = _tree_obs(c, text)
+    sub = []
+    for k, n in enumerate(own):
+        m = n.clone()
+        a, b = _flat([n], text)[0], _flat([m], text)[0]
+        if a != b:
+            sub.append([k, a, b])
+    o["subclone_diff"] = sub
+    # the default cleanup, applied in place to a second parse of the text: which objects survive, with which positions
+    raw2 = p.parse(text, do_cleanup=False)
+    r2 = _tree_obs(raw2, text)
+    o["reparse"] = None if r2 == raw0 else r2
+    own2 = _preorder(raw2)           # kept alive: ids of dropped elements must not be re-used by new objects
+    idx = {id(n): k for k, n in enumerate(own2)}
+    p.cleanup(raw2)
+    seen = []
+    o["clean"] = _clean_obs(raw2, text, idx, TE, seen)
+    found = raw2.find_all(exclude_root=False)
+    same = len(found) == len(seen) and all(a is b for a, b in zip(found, seen))
+    o["find_clean"] = None if same else [_flat(found, text), _flat(seen, text)]
+    assert all(own2[idx[id(x)]] is x for x in seen if id(x) in idx)
+    # cleanup of the clone gives the same; clone + cleanup of the clone must not have touched the original
+    p.cleanup(c)
+    cobs = _clean_obs(c, text, {}, TE, [])
+    o["clone_cleaned"] = None if cobs == _strip_idx(o["clean"]) else cobs
+    raw1 = _tree_obs(raw, text)
+    o["raw_after"] = None if raw1 == raw0 else raw1
+    # parse with the default cleanup: the same tree as cleanup(raw)
+    d = p.parse(text)
+    seen_d = []
+    dobs = _clean_obs(d, text, {}, TE, seen_d)
+    o["default_clean"] = None if dobs == _strip_idx(o["clean"]) else dobs
+    # clone of the cleaned tree (list, dict and None values)
+    e = d.clone()
+    eobs = _clean_obs(e, text, {}, TE, [])
+    o["clone_clean"] = None if eobs == dobs else eobs
+    return o
+
+
+def _productions(case, llparser):
+    tp = case.get("tprods")
+    if not tp:
+        return {nt: [tuple(a) if a else None for a in alts] for nt, alts in case["prods"]}
+    prods = {}
+    for nt, spec in tp:
+        if isinstance(spec, dict):
+            if "list" in spec:
+                prods[nt] = llparser.ListProds(*spec["list"])
+            elif "map" in spec:
+                prods[nt] = llparser.MapProds(*spec["map"])
+            else:
+                prods[nt] = llparser.ProdSequence(*spec["seq"])
+        else:
+            prods[nt] = [tuple(a) if a else None for a in spec]
+    return prods
+
+
+def _burn(p, text, keepalive):
+    """use the parser object on another text: a tokenizer generator that is left suspended after two tokens, and a
+    complete parse (whatever they raise)"""
+    try:
+        g = p.tokenizer.tokenize(text, "previous text")
+        keepalive.append(g)
+        next(g)
+        next(g)
+    except BaseException as e:  # noqa
+        if type(e).__name__ == "Hang":
+            raise
+    try:
+        keepalive.append(p.parse(text))
+    except BaseException as e:  # noqa
+        if type(e).__name__ == "Hang":
+            raise
+
+
 def impl_run(case):
     from ak import llparser
-    prods = {nt: [tuple(a) if a else None for a in alts] for nt, alts in case["prods"]}
     text = case["text"]
     kwargs = {}
     if case["skip"] is not None:
         kwargs["skip_tokens"] = set(case["skip"])
+    if case.get("keep") is not None:
+        kwargs["keep_symbols"] = set(case["keep"])
     try:
         p = llparser.LLParser(
-            tokenizer_str(case), productions=prods, start_symbol_name=case["start"],
+            tokenizer_str(case), productions=_productions(case, llparser), start_symbol_name=case["start"],
             synonyms=dict(case["syn"]) or None,
             keywords={(n, v): k for n, v, k in case["kw"]} or None,
             span_matchers=span_matchers(case) or None,
@@ -520,19 +779,25 @@ def impl_run(case):
             raise
         return {"ctor": ["err", SX.exc_name(e)]}
     out = {"ctor": ["ok"], "skip": sorted(p.skip_tokens)}
+    prev = case.get("prev")
+    keepalive = []
+    if prev and prev["mode"] == "before":
+        _burn(p, prev["text"], keepalive)
     # every token, skipped ones included
     try:
-        toks = list(p.tokenizer.tokenize(text, "src"))
+        toks = []
+        gen = iter(p.tokenizer.tokenize(text, "src"))
+        while True:
+            if prev and prev["mode"] == "interleave" and len(toks) == prev["k"] and not keepalive:
+                _burn(p, prev["text"], keepalive)
+            try:
+                toks.append(next(gen))
+            except StopIteration:
+                break
         tl = []
         for t in toks:
             te = llparser.TElement(t.name, t.value, start_pos=t.start_pos, end_pos=t.end_pos)
-            try:
-                orig = ["ok", te.get_orig_text(text)]
-            except BaseException as e:  # noqa
-                if type(e).__name__ == "Hang":
-                    raise
-                orig = ["err", SX.exc_name(e)]
-            tl.append([t.name, t.value, [list(t.span[0]), list(t.span[1])], orig])
+            tl.append([t.name, t.value, [list(t.span[0]), list(t.span[1])], _orig_obs(te, text)])
         out["lex"] = ["ok", tl]
     except llparser.LexicalError as e:
         out["lex"] = ["err", "LexicalError", list(e.src_pos.coords), e.text]
@@ -540,9 +805,10 @@ def impl_run(case):
         if type(e).__name__ == "Hang":
             raise
         out["lex"] = ["err", SX.exc_name(e), None, None]
+    raw = None
     try:
-        t = p.parse(text, do_cleanup=False)
-        out["parse"] = ["ok", _tree_obs(t, text)]
+        raw = p.parse(text, do_cleanup=False)
+        out["parse"] = ["ok", _tree_obs(raw, text)]
     except llparser.LexicalError as e:
         out["parse"] = ["err", "LexicalError", list(e.src_pos.coords), e.text]
     except llparser.ParsingError as e:
@@ -551,6 +817,13 @@ def impl_run(case):
         if type(e).__name__ == "Hang":
             raise
         out["parse"] = ["err", SX.exc_name(e), None, None]
+    if raw is not None:
+        try:
+            out["ops"] = ["ok", _tree_ops(llparser, p, raw, text)]
+        except BaseException as e:  # noqa
+            if type(e).__name__ == "Hang":
+                raise
+            out["ops"] = ["err", SX.exc_name(e), repr(e)[:200]]
     return out
 
 
@@ -586,13 +859,45 @@ def coq_case(case, obs):
     skip = "None" if case["skip"] is None else "(Some " + _clist((_csym(s) for s in case["skip"]), "(list Z)") + ")"
     ug = SX.clist("(" + _csym(nt) + ", " + SX.clist(SX.clist(_csym(s) for s in alt) if alt else "(@nil (list Z))" for alt in alts) + ")"
                   for nt, alts in case["prods"])
-    t = case["text"]
-    if isinstance(t, list):
-        inp = "(ILines " + _clist((SX.cstr(l) for l in t), "(list Z)") + ")"
-    else:
-        inp = f"(IStr {SX.cstr(t)})"
+    inp = _cinput(case["text"])
+    gen = _clist((_csym(x) for x in case.get("gen") or []), "(list Z)")
+    seqs = _clist((_csym(x) for x in case.get("seqs") or []), "(list Z)")
+    alts = _clist((_cinput(a) for _, a in alt_texts(case["text"])), "input")
+    ks = _clist((f"{k}%nat" for k in surviving_indices(obs)), "nat")
     return (f"Case (mkCfg {lex} {spans} {syn} {kw}) {skip} {ug} {SX.cbool(case['smart'])} {_csym(case['start'])} "
-            f"{FUEL}%nat {inp} ({_csx(observation(case, obs))})")
+            f"{FUEL}%nat {gen} {seqs} {inp} {alts} {ks} ({_csx(observation(case, obs))})")
+
+
+def _cinput(t):
+    if isinstance(t, (list, tuple)):
+        return "(ILines " + _clist((SX.cstr(l) for l in t), "(list Z)") + ")"
+    return f"(IStr {SX.cstr(t)})"
+
+
+def clean_elements(o):
+    """the elements ["T", ...] of a cleaned-tree observation, an element before the elements inside its value"""
+    out = []
+
+    def walk(x):
+        if isinstance(x, list) and x and x[0] == "T":
+            out.append(x)
+            walk(x[6])
+        elif isinstance(x, list) and x and x[0] == "L":
+            for e in x[1]:
+                walk(e)
+        elif isinstance(x, list) and x and x[0] == "D":
+            for k, v in x[1]:
+                walk(k)
+                walk(v)
+    walk(o)
+    return out
+
+
+def surviving_indices(obs):
+    ops = obs.get("ops")
+    if not ops or ops[0] != "ok":
+        return []
+    return [e[5] for e in clean_elements(ops[1]["clean"]) if e[5] is not None]
 
 
 def _sx_text(o):
@@ -624,7 +929,19 @@ def observation(case, obs):
         prs = SX.ok(_sx_tree(pr[1]))
     else:
         prs = SX.err(pr[1])
-    return [0, toks, prs]
+    # the trees obtained through the tree API: clone, elements surviving the cleanup (index in the raw tree, span,
+    # text), get_orig_text of every element under the other representations of the text
+    ops = obs.get("ops")
+    if pr[0] != "ok":
+        opx = []
+    elif not ops or ops[0] != "ok":
+        opx = [9, SX.err(ops[1] if ops else "OtherError")[1]]
+    else:
+        o = ops[1]
+        opx = [_sx_tree(o["clone"]),
+               [[e[5], _sx_span(e[3]), _sx_text(e[4])] for e in clean_elements(o["clean"]) if e[5] is not None],
+               [[_sx_text(t) for t in lst] for lst in o["alt"]]]
+    return [0, toks, prs, opx]
 
 
 def _csx(x):
@@ -828,7 +1145,9 @@ def oracle(case, obs):
     skip = set(obs["skip"])
     ns = [t for t in toks if t[0] not in skip]
     if pr[0] == "ok":
-        out += _check_tree(pr[1], ns, offs)
+        info = []
+        out += _check_tree(pr[1], ns, offs, info)
+        out += _check_ops(obs, pr[1], info, offs)
     elif pr[1] == "ParsingError":
         if tuple(pr[2]) not in [tuple(t[2][0]) for t in ns]:
             out.append(("parse-error-pos", f"ParsingError.src_pos {pr[2]} is not the start of a token"))
@@ -840,7 +1159,7 @@ def oracle(case, obs):
         if sig not in seen:
             seen.add(sig)
             res.append((sig, msg + f"   [cfg {case['cfg']}, grammar {case['gid']}, text {text!r}]"))
-    return res[:4]
+    return res[:5]
 
 
 def _first_closer(body, closer):
@@ -854,13 +1173,19 @@ def _first_closer(body, closer):
     return -1
 
 
-def _check_tree(tree, ns, offs):
+def _check_tree(tree, ns, offs, info=None):
+    """info (if given) receives, per element in depth-first order, (first token, token behind the last, the span the
+    statement demands or None)"""
     out = []
     k = [0]
+    if info is None:
+        info = []
 
     def walk(t):
         kindt, name, val, sp, orig = t
         s, e = tuple(sp[0]), tuple(sp[1])
+        me = len(info)
+        info.append((k[0], k[0], None))
         reg = offs.region((s, e))
         if reg is None:
             out.append(("span-invalid", f"node {name}: span {(s, e)} is not a region of the text"))
@@ -873,6 +1198,7 @@ def _check_tree(tree, ns, offs):
             tk = ns[k[0]]
             if [name, val, sp] != [tk[0], tk[1], tk[2]]:
                 out.append(("leaf-span", f"leaf {name} {val!r} {sp} is not token #{k[0]} {tk[:3]}"))
+            info[me] = (k[0], k[0] + 1, (tuple(tk[2][0]), tuple(tk[2][1])))
             k[0] += 1
             return
         i = k[0]
@@ -882,6 +1208,7 @@ def _check_tree(tree, ns, offs):
         if i >= len(ns):
             out.append(("node-span", f"node {name} lies behind the last token"))
             return
+        info[me] = (i, j, (tuple(ns[i][2][0]), tuple(ns[i][2][0])) if i == j else (tuple(ns[i][2][0]), tuple(ns[j - 1][2][1])))
         if i == j:
             want = (tuple(ns[i][2][0]), tuple(ns[i][2][0]))
             if (s, e) != want:
@@ -895,6 +1222,116 @@ def _check_tree(tree, ns, offs):
                 out.append((sig, f"node {name} matched tokens #{i}..#{j - 1}; its span is {(s, e)}, must be {want} "
                             f"(start of its first token .. end of its last token)"))
     walk(tree)
+    return out
+
+
+def _pre_obs(t):
+    """the elements of a raw-tree observation in depth-first order"""
+    out = [t]
+    if t[0] == 1:
+        for c in t[2]:
+            out += _pre_obs(c)
+    return out
+
+
+def _first_diff(a, b, path=""):
+    """first place where two observations differ -> (path, a-part, b-part) | None"""
+    if type(a) is not type(b):
+        return (path, a, b)
+    if isinstance(a, list):
+        if len(a) != len(b):
+            return (path + f"[len {len(a)} vs {len(b)}]", a[:6], b[:6])
+        for i, (x, y) in enumerate(zip(a, b)):
+            d = _first_diff(x, y, f"{path}.{i}")
+            if d:
+                return d
+        return None
+    return None if a == b else (path, a, b)
+
+
+def _check_ops(obs, raw, info, offs):
+    """the statement on the trees obtained from the parsed tree through the public tree API: the clone, the clones of
+    all sub-trees, the tree after the default cleanup (cleanup(tree) and parse(text)), its clone, the find_all lists,
+    get_orig_text under another representation of the text; and the original tree afterwards"""
+    ops = obs.get("ops")
+    if not ops:
+        return [("tree-op-missing", "no observation of the tree operations")]
+    if ops[0] != "ok":
+        return [("tree-op-raises", f"clone / cleanup / find_all / parse(text) raised {ops[1]}: {ops[2]}")]
+    o = ops[1]
+    out = []
+    pre = _pre_obs(raw)
+    raw_spans = {(tuple(t[3][0]), tuple(t[3][1])) for t in pre}
+
+    def exact(what, name, sp, orig, want):
+        s, e = tuple(sp[0]), tuple(sp[1])
+        reg = offs.region((s, e))
+        if want is not None and (s, e) != want:
+            out.append(("api-node-span", f"{what}: element {name} has span {(s, e)}; the tokens it was matched from give {want}"
+                        + (f", its get_orig_text is {orig}" if orig else "")))
+        elif reg is None:
+            out.append(("span-invalid", f"{what}: element {name}: span {(s, e)} is not a region of the text"))
+        elif orig != ["ok", reg]:
+            out.append(("orig-text", f"{what}: element {name}: get_orig_text gives {orig}, the text between {s} and {e} is {reg!r}"))
+
+    # ---- clone(): the same elements with the same spans
+    cl = _pre_obs(o["clone"])
+    if len(cl) != len(pre) or any(a[:2] != b[:2] for a, b in zip(cl, pre)):
+        out.append(("clone-shape", f"clone() has another shape than the tree: {_first_diff(raw, o['clone'])}"))
+    else:
+        for k, (a, b) in enumerate(zip(cl, pre)):
+            exact("clone() of the parsed tree", a[1], a[3], a[4], info[k][2] if k < len(info) else None)
+    for k, a, b in o["subclone_diff"]:
+        n0 = len(out)
+        exact(f"clone() of sub-tree #{k}", b[0], b[1], b[2], info[k][2] if k < len(info) else None)
+        if len(out) == n0:
+            out.append(("clone-shape", f"clone() of sub-tree #{k} {a} is {b}"))
+    # ---- the elements after the default cleanup are elements of the raw tree, each still exact
+    def cleaned(what, tree):
+        for e in clean_elements(tree):
+            k = e[5]
+            want = info[k][2] if k is not None and k < len(info) else None
+            exact(what, e[1], e[3], e[4], want)
+            if k is None and (tuple(e[3][0]), tuple(e[3][1])) not in raw_spans:
+                out.append(("api-node-span", f"{what}: element {e[1]} has span {e[3]}, which no element of the freshly parsed tree has"))
+    cleaned("cleanup() of the parsed tree", o["clean"])
+    if o["reparse"] is not None:
+        out.append(("reparse-differs", f"a second parse(text, do_cleanup=False) gives another tree: {_first_diff(raw, o['reparse'])}"))
+    if o["clone_cleaned"] is not None:
+        n0 = len(out)
+        cleaned("cleanup() of the cloned tree", o["clone_cleaned"])
+        if len(out) == n0:
+            out.append(("clone-shape", f"cleanup(tree.clone()) and cleanup(tree) differ: "
+                        f"{_first_diff(_strip_idx(o['clean']), o['clone_cleaned'])}"))
+    if o["default_clean"] is not None:
+        n0 = len(out)
+        cleaned("parse(text) with the default cleanup", o["default_clean"])
+        if len(out) == n0:
+            out.append(("cleanup-paths-differ", f"parse(text) and cleanup(parse(text, do_cleanup=False)) differ: "
+                        f"{_first_diff(_strip_idx(o['clean']), o['default_clean'])}"))
+    if o["clone_clean"] is not None:
+        n0 = len(out)
+        cleaned("clone() of the cleaned tree", o["clone_clean"])
+        if len(out) == n0:
+            ref = o["default_clean"] if o["default_clean"] is not None else _strip_idx(o["clean"])
+            out.append(("clone-shape", f"clone() of the cleaned tree differs from it: {_first_diff(ref, o['clone_clean'])}"))
+    # ---- find_all lists the elements of the tree, with their spans
+    for key, what in (("find_raw", "parsed"), ("find_clean", "cleaned")):
+        if o[key] is not None and o[key][0] != o[key][1]:
+            out.append(("api-node-span", f"find_all(exclude_root=False) on the {what} tree lists (name, span, text) "
+                        f"{_first_diff(o[key][1], o[key][0])} (elements of the tree vs listed)"))
+    if o["tuple_parse"] is not None:
+        out.append(("reparse-differs", f"parse(tuple(lines)) gives another tree than parse(lines): {_first_diff(raw, o['tuple_parse'])}"))
+    # ---- get_orig_text does not depend on how the text is handed over
+    for lst in o["alt"]:
+        for k, (tx, t) in enumerate(zip(lst, pre)):
+            if tx != t[4]:
+                out.append(("orig-text-repr", f"element #{k} {t[1]} {t[3]}: get_orig_text gives {t[4]} for the text as it was parsed "
+                            f"and {tx} for the same text as list of lines / str"))
+                break
+    # ---- clone, cleanup of the clone and a second parse leave the tree alone
+    if o["raw_after"] is not None:
+        out.append(("tree-mutated", f"the parsed tree changed after clone() / cleanup of the clone: {_first_diff(raw, o['raw_after'])}"))
     return out
 
 
@@ -967,12 +1404,21 @@ LEVEL_TEXT = ("Full for the statement's clauses, as theorems about the model for
               "returned by LLP/Parse.v parse, for any table, with roll-backs and suffix splicing, covers a token range), mk_node_wf, "
               "leaf_span, node_span (start of first token .. end of last token), empty_node_span (empty span at the following "
               "token, which exists), every_node_covered, node_text (get_orig_text of every node is defined and is the region "
-              "between its two positions).  source_shape ties the model to the presence of the line-start statement in the source; "
+              "between its two positions); for the trees obtained through the tree API: clone_exact (clone t = t), flatten_spans "
+              "(in-parse flattening of ProdSequence elements keeps every span exact), listed_is_subtree / surviving_is_subtree and "
+              "api_node_exact (every element of the clone of the flattened parse result - hence every element find_all lists and "
+              "every raw element that survives the cleanup - covers exactly its tokens and get_orig_text returns the region between "
+              "its positions).  source_shape ties the model to the presence of the line-start statement in the source; "
               "harness_matcher_ok proves the hypotheses for the concrete matcher that is compared with re on every run.  "
               "Only tested (correspondence + offset-based reference tokenizer), not theorems: that the reported closer is the FIRST "
               "place where the span body pattern matches; the converse direction of lex_error_line beyond what tokens_cover + "
               "tokenize_terminates give (a successful run has matched every character it stood on); ParsingError.src_pos (oracle: it is "
-              "the start of a token); fidelity of the model (1500 cases quick / 14000 thorough, seven configurations, seven grammars).")
+              "the start of a token); that cleanup() works in place and never touches a position (the elements of the cleaned tree "
+              "are identified with raw elements by object identity at run time and the model is asked for THEIR spans; an element that "
+              "is a new object is checked by the oracle only); that positions do not depend on what the parser object was used for "
+              "before or in between (histories are generated, the model is a pure function of the text); get_orig_text under another "
+              "representation of the text (compared with the model's orig_lines of that representation); fidelity of the model "
+              "(1500 cases quick / 14000 thorough, seven configurations, ten grammars).")
 LEVEL_NOTE = ("Trusted: Coq kernel + vm_compute; fidelity of the hand model of _Tokenizer.tokenize / get_orig_text / the skip filter and of "
               "LLP/Parse.v (checked by correspondence on token lists, LexicalError position and text, tree spans and get_orig_text of every "
               "token and node, not proved); re, str.isspace/split/rstrip of CPython; the ast extractor and harness.  Outside the "
